@@ -524,6 +524,33 @@ class DType(str):
         return NpInt(_coerce(v, d), d)
 
 
+def _flat_values(a):
+    if isinstance(a, Arr):
+        if len(a.shape) != 1:
+            raise orders.Unsupported('cumulative operation on a %d-D array' % len(a.shape))
+        return a.tolist_flat()
+    if isinstance(a, (list, tuple)):
+        return list(a)
+    raise orders.Unsupported('cumulative operation on %r' % type(a).__name__)
+
+
+def cumsum(a, op=None, **kw):
+    vals = _flat_values(a)
+    out, acc = [], None
+    for v in vals:
+        acc = v if acc is None else (acc + v if op is None else op(acc, v))
+        out.append(acc)
+    d = 'float' if any(isinstance(v, float) for v in out) or not out else 'int64'
+    return Arr((len(out),), [_coerce(v, d) for v in out], list(range(len(out))), d)
+
+
+def diff(a, **kw):
+    vals = _flat_values(a)
+    out = [b - a_ for a_, b in zip(vals, vals[1:])]
+    d = 'float' if any(isinstance(v, float) for v in out) or not out else 'int64'
+    return Arr((len(out),), [_coerce(v, d) for v in out], list(range(len(out))), d)
+
+
 def isclose(a, b, rtol=1e-05, atol=1e-08, **kw):
     def one(x, y):
         x, y = float(x), float(y)
@@ -696,6 +723,7 @@ def stubs():
         'add': elementwise(lambda x, y: x + y), 'subtract': elementwise(lambda x, y: x - y),
         'argmin': arg(min), 'argmax': arg(max), 'absolute': unary(abs),
         'shape': lambda a: a.shape,
+        'cumsum': cumsum, 'cumprod': lambda a, **k: cumsum(a, op=lambda x, y: x * y), 'diff': diff,
         'isclose': isclose, 'allclose': lambda a, b, **k: NpBool(all(isclose(a, b, **k).tolist_flat()) if isinstance(isclose(a, b, **k), Arr) else isclose(a, b, **k)),
         'isnan': unary(lambda v: v != v), 'isinf': unary(lambda v: v in (float('inf'), float('-inf'))), 'isfinite': unary(lambda v: v == v and v not in (float('inf'), float('-inf'))),
         'nan': float('nan'), 'NaN': float('nan'), 'inf': float('inf'), 'pi': 3.141592653589793, 'e': 2.718281828459045,
